@@ -80,7 +80,7 @@ where
     S: Spec,
     S::V: Ord,
     O: IcKind<Idx<S>>,
-    S::R: for<'a> Push<&'a Own<S>>,
+    S::R: for<'a> Push<&'a Own<S>> + for<'a> Push<<S::R as Region>::ReadItem<'a>>,
     for<'a> <S::R as Region>::ReadItem<'a>: Ord,
 {
     let owned: Vec<Vec<Own<S>>> = t.vals.iter().map(|v| v.iter().map(S::owned).collect()).collect();
@@ -91,11 +91,18 @@ where
         let _ = rb.push(first.as_slice());
         let _ = rb.push(first.as_slice());
     }
+    // region B holds its values as *copies of read items* of a scratch region (not of owned
+    // slices), taken from a non-zero offset
+    let mut scratch = SliceRegion::<S::R, O>::default();
     let mut idx: Vec<Option<(usize, usize)>> = Vec::new();
     for k in 0..3 {
         idx.push(match t.reps[k] % 3 {
             0 => Some(ra.push(owned[k].as_slice())),
-            1 => Some(rb.push(owned[k].as_slice())),
+            1 => {
+                let _pad = scratch.push(owned[k].as_slice());
+                let si = scratch.push(owned[k].as_slice());
+                Some(rb.push(scratch.index(si)))
+            }
             _ => None,
         });
     }
@@ -107,7 +114,7 @@ where
                 _ => IntoOwned::borrow_as(&owned[k]),
             })
             .collect();
-        let describe = |i: usize| format!("{}{:?}", ["regionA", "regionB", "borrowed"][(t.reps[i] % 3) as usize], t.vals[i]);
+        let describe = |i: usize| format!("{}{:?}", ["regionA", "regionB(copied read item)", "borrowed"][(t.reps[i] % 3) as usize], t.vals[i]);
         let eq = |i: usize, j: usize| items[i] == items[j];
         let pcmp = |i: usize, j: usize| items[i].partial_cmp(&items[j]);
         let cmp = |i: usize, j: usize| Ord::cmp(&items[i], &items[j]);
